@@ -25,6 +25,7 @@ import . "github.com/pbenner/autodiff/statistics"
 /* -------------------------------------------------------------------------- */
 
 func init() {
+  MatrixPdfRegistry["matrix:constrained hmm distribution"]  = new(Chmm)
   MatrixPdfRegistry["matrix:hierarchical hmm distribution"] = new(Hhmm)
   MatrixPdfRegistry["matrix:inverse wishart distribtion"]   = new(InverseWishartDistribution)
   MatrixPdfRegistry["matrix:shape hmm distribution"]        = new(ShapeHmm)
